@@ -593,6 +593,31 @@ def n_line_text_def_cases(tier):
     return bs * ds * bs * ds
 
 
+DEAD_K = [1, 2, 126, 127, 128, 129, 253, 254, 255, 256]
+
+
+def _dead_sources(k, m):
+    """Unreachable statements after `return` spanning k / m lines: before 3.10 the
+    peephole optimizer removes their bytecode after the line table was assembled,
+    which leaves several zero-width entries at one offset (forward and backward)."""
+    nl = "\n"
+    yield "def f():" + nl + "    return 1" + nl + "    x = g(" + nl * (k + 1) + "      a)" + nl + "    y = 2" + nl
+    yield "def f():" + nl + "    return 1" + nl * (k + 1) + "    x = g(" + nl * (m + 1) + "      a)" + nl
+    yield "def f():" + nl + "    return 1" + nl * (k + 1) + "    x = 2" + nl + "    y = g(" + nl * m + "      a)" + nl + "    z = 3" + nl
+    yield "def f(a):" + nl + "    if a:" + nl + "        return g(" + nl * k + "            a)" + nl + "        x = [1," + nl * m + "             2]" + nl + "    return 0" + nl * (k + 1) + "    y = 3" + nl
+
+
+def line_dead_cases(tier):
+    for k in DEAD_K:
+        for m in DEAD_K:
+            for src in _dead_sources(k, m):
+                yield {"k": "src", "s": "Lx", "src": src, "mode": "exec", "opt": 0}
+
+
+def n_line_dead_cases(tier):
+    return len(DEAD_K) ** 2 * 4
+
+
 def n_line_text_cases(tier):
     ds = len(LINE_D) if tier == "thorough" else 8
     bs = len(BYTE_B) if tier == "thorough" else 7
